@@ -7,13 +7,15 @@ pub struct Unit {
     pub b: f64,
     pub av: f64,
     pub big: f64,
+    /// signed-zero variant: the lattice value 0 is fed as -0.0 on odd calls (see `price_at`)
+    pub nz: bool,
 }
 
 pub const BIG: i64 = 1_000_000;
 
 impl Unit {
     pub fn new(a: f64, b: f64) -> Unit {
-        Unit { a, b, av: 1.0, big: a * 1.0e6 + b }
+        Unit { a, b, av: 1.0, big: a * 1.0e6 + b, nz: false }
     }
     /// Affine, except that a warped unit sends the lattice spike 10^6 to an arbitrary larger magnitude.
     /// A warped unit is still strictly monotone, so every fact the specification states about ties,
@@ -24,6 +26,15 @@ impl Unit {
         }
         self.a * (k as f64) + self.b
     }
+    /// the price of lattice value k as the t-th input (0-based) of an instance
+    pub fn price_at(&self, k: i64, t: u64) -> f64 {
+        let x = self.price(k);
+        if self.nz && x == 0.0 && t % 2 == 1 {
+            -0.0
+        } else {
+            x
+        }
+    }
     pub fn warped(&self) -> bool {
         self.big != self.a * 1.0e6 + self.b
     }
@@ -31,7 +42,7 @@ impl Unit {
         self.av * (k as f64)
     }
     pub fn label(&self) -> String {
-        format!("a={:e} b={:e} av={:e} big={:e}", self.a, self.b, self.av, self.big)
+        format!("a={:e} b={:e} av={:e} big={:e}{}", self.a, self.b, self.av, self.big, if self.nz { " signed-zeros" } else { "" })
     }
 }
 
@@ -63,13 +74,13 @@ pub fn shift_ok(kind: &str) -> bool {
 /// Warped units: only for the relational / range / finiteness / ordering checks (not for exact values).
 pub fn warped_units(tier: &str) -> Vec<Unit> {
     let mut v = vec![
-        Unit { a: 1.0e-4, b: 0.0, av: 1.0, big: 1.5e4 + 1.0 / 3.0 },
-        Unit { a: 0.3, b: 0.0, av: 0.7, big: 1.0e9 / 3.0 },
+        Unit { a: 1.0e-4, b: 0.0, av: 1.0, big: 1.5e4 + 1.0 / 3.0, nz: false },
+        Unit { a: 0.3, b: 0.0, av: 0.7, big: 1.0e9 / 3.0, nz: false },
     ];
     if tier == "thorough" {
-        v.push(Unit { a: 1.0, b: 0.0, av: 1e9, big: 1.0e17 });
-        v.push(Unit { a: 1.37, b: 0.0, av: 1e-3, big: 43000.0 });
-        v.push(Unit { a: 1e-3, b: 0.0, av: 1.0, big: 1.0e12 / 7.0 });
+        v.push(Unit { a: 1.0, b: 0.0, av: 1e9, big: 1.0e17, nz: false });
+        v.push(Unit { a: 1.37, b: 0.0, av: 1e-3, big: 43000.0, nz: false });
+        v.push(Unit { a: 1e-3, b: 0.0, av: 1.0, big: 1.0e12 / 7.0, nz: false });
     }
     v
 }
@@ -85,8 +96,8 @@ pub fn unit_list(tier: &str, seed: u64) -> Vec<Unit> {
         Unit::new(0.01, 1.0e9),
     ];
     // non-dyadic units, where running sums keep rounding residue (the lattice value 10^6 is the "spike")
-    v.push(Unit { a: 1.0e-4, b: 0.0, av: 1.0, big: 1.0e-4 * 1.0e6 });
-    v.push(Unit { a: 0.3, b: 0.0, av: 0.7, big: 0.3 * 1.0e6 });
+    v.push(Unit { a: 1.0e-4, b: 0.0, av: 1.0, big: 1.0e-4 * 1.0e6, nz: false });
+    v.push(Unit { a: 0.3, b: 0.0, av: 0.7, big: 0.3 * 1.0e6, nz: false });
     if tier == "thorough" {
         for k in [-100, -70, -40, -30, -10, -3, -1, 1, 2, 5, 10, 24, 40, 60] {
             v.push(Unit::new(2f64.powi(k), 0.0));
@@ -94,8 +105,8 @@ pub fn unit_list(tier: &str, seed: u64) -> Vec<Unit> {
         for (a, b) in [(1.0, 3.0), (0.1, 0.7), (1e-3, 1e3), (7.0, -1e5), (1.0, 1e12), (1e6, 1e12), (1e-6, 0.0), (1e12, 0.0)] {
             v.push(Unit::new(a, b));
         }
-        v.push(Unit { a: 1.0, b: 0.0, av: 1e9, big: 1.0e6 });
-        v.push(Unit { a: 1.37, b: 0.0, av: 1e-3, big: 1.37 * 1.0e6 });
+        v.push(Unit { a: 1.0, b: 0.0, av: 1e9, big: 1.0e6, nz: false });
+        v.push(Unit { a: 1.37, b: 0.0, av: 1e-3, big: 1.37 * 1.0e6, nz: false });
         let mut r = Rng(seed ^ 0x5eed);
         for _ in 0..12 {
             let a = 10f64.powf(-3.0 + 9.0 * r.unit_f64());
